@@ -1,6 +1,6 @@
 (** Proofs for C09 (transparent tunnels): copy loop, PROXY line, the bufio.Reader
     conservation invariant, the SNI leftover, the two-copier race. *)
-From Coq Require Import String List NArith Bool Arith PeanoNat Lia.
+From Coq Require Import String List NArith Bool Arith PeanoNat Lia ZifyBool ZifyNat ZifyN.
 From Fabio Require Import Lib.Outcome Lib.Bytes Model.ClientHello Model.BufioR Model.Tunnel Proofs.ClientHello.
 Import ListNotations.
 
@@ -602,3 +602,539 @@ Example waiting_client_scenario :
     e_up_lo e = 3%N /\ e_cl_lo e = 2%N /\
     spec_b KTcp false [] [1; 2; 3]%N true CHalf (UAfterBytes 3) [7; 8]%N UStay [1; 2; 3]%N [7; 8]%N = true.
 Proof. eexists. repeat split; vm_compute; reflexivity. Qed.
+
+(* ================= fuel: the loops of the reader model terminate within the fuel supplied ================= *)
+Lemma src_read_len m src d s' e : src_read m src = (d, s', e) -> (length d <= m)%nat.
+Proof.
+  revert d s' e; induction src as [|seg rest IH]; intros d s' e H.
+  - cbn [src_read] in H. inversion H; subst. cbn [length]. lia.
+  - destruct seg as [|x seg]; cbn [src_read] in H; [eauto|].
+    inversion H; subst. rewrite firstn_length. lia.
+Qed.
+
+Lemma peek_loop_fuel : forall fuel b n, (b_cap b - buffered b <= fuel)%nat -> peek_loop fuel b n <> None.
+Proof.
+  induction fuel as [|f IH]; intros b n Hf; cbn [peek_loop].
+  - destruct ((buffered b <? n)%nat && (buffered b <? b_cap b)%nat && (b_err b =? 0)%N) eqn:C; [|discriminate].
+    apply andb_true_iff in C. destruct C as [C _]. apply andb_true_iff in C. destruct C as [_ C].
+    apply Nat.ltb_lt in C. lia.
+  - destruct ((buffered b <? n)%nat && (buffered b <? b_cap b)%nat && (b_err b =? 0)%N) eqn:C; [|discriminate].
+    apply andb_true_iff in C. destruct C as [C _]. apply andb_true_iff in C. destruct C as [_ C].
+    apply Nat.ltb_lt in C.
+    unfold fill. destruct (src_read (b_cap b - buffered b) (b_src b)) as [[d s'] e] eqn:E.
+    destruct e.
+    + (* EOF: the next test fails on b.err *)
+      destruct f as [|f']; cbn [peek_loop b_err N.eqb]; rewrite !andb_false_r; discriminate.
+    + apply IH. assert (Hm : (0 < b_cap b - buffered b)%nat) by lia.
+      destruct (src_read_progress _ _ _ _ Hm E) as [Hd _].
+      unfold buffered in *. cbn [b_cap b_buf]. rewrite app_length.
+      destruct d; [contradiction|]. cbn [length]. lia.
+Qed.
+
+Theorem peek_never_out_of_fuel : forall b n, peek b n <> Err 77%N.
+Proof.
+  intros b n. unfold peek. destruct (peek_loop (S (b_cap b)) b n) as [b1|] eqn:L.
+  - destruct (b_cap b1 <? n)%nat; [discriminate|]. destruct (buffered b1 <? n)%nat; discriminate.
+  - exfalso. apply (peek_loop_fuel (S (b_cap b)) b n); [lia | exact L].
+Qed.
+
+Lemma bread_len b m d e b1 : bread b m = (d, e, b1) -> (length d <= m)%nat.
+Proof.
+  unfold bread. destruct m as [|n'].
+  - destruct (0 <? buffered b)%nat; intros H; inversion H; subst; cbn [length]; lia.
+  - destruct (b_buf b) as [|x buf] eqn:B.
+    + destruct (negb (b_err b =? 0)%N); [intros H; inversion H; subst; cbn [length]; lia|].
+      destruct (b_cap b <=? S n')%nat.
+      * destruct (src_read (S n') (b_src b)) as [[d0 s'] e0] eqn:E. intros H; inversion H; subst.
+        apply (src_read_len _ _ _ _ _ E).
+      * destruct (src_read (b_cap b) (b_src b)) as [[d0 s'] e0] eqn:E.
+        destruct d0 as [|y d0]; intros H; inversion H; subst; [cbn [length]; lia|].
+        cbn [length firstn]. rewrite ?firstn_length. lia.
+    + intros H; inversion H; subst. cbn [length firstn]. rewrite ?firstn_length. lia.
+Qed.
+
+(* a successful Read with room in the argument returns at least one byte *)
+Lemma bread_data b m d b1 : (0 < m)%nat -> bread b m = (d, 0%N, b1) -> d <> [].
+Proof.
+  intros Hm. unfold bread. destruct m as [|n']; [lia|].
+  destruct (b_buf b) as [|x buf] eqn:B.
+  - destruct (b_err b =? 0)%N eqn:Eerr; cbn [negb].
+    + destruct (b_cap b <=? S n')%nat eqn:Ecap.
+      * destruct (src_read (S n') (b_src b)) as [[d0 s'] e0] eqn:E. intros H; inversion H; subst.
+        destruct e0; [discriminate|]. apply (src_read_progress _ _ _ _ Hm E).
+      * apply Nat.leb_gt in Ecap. destruct (src_read (b_cap b) (b_src b)) as [[d0 s'] e0] eqn:E.
+        destruct d0 as [|y d0]; intros H; inversion H; subst.
+        -- destruct e0; [discriminate|]. assert (Hc : (0 < b_cap b)%nat) by lia.
+           destruct (src_read_progress _ _ _ _ Hc E) as [Hd _]. exact Hd.
+        -- cbn [firstn]. discriminate.
+    + apply N.eqb_neq in Eerr. intros H; inversion H; subst. congruence.
+  - intros H; inversion H; subst. cbn [firstn]. discriminate.
+Qed.
+
+Lemma read_full_loop_fuel : forall fuel b need acc, (need < fuel)%nat -> read_full_loop fuel b need acc <> None.
+Proof.
+  induction fuel as [|f IH]; intros b need acc Hf; [lia|].
+  destruct need as [|k]; cbn [read_full_loop]; [discriminate|].
+  destruct (bread b (S k)) as [[d e] b1] eqn:R.
+  destruct (e =? 0)%N eqn:E0.
+  - apply N.eqb_eq in E0. subst e.
+    assert (Hd : d <> []) by (apply (bread_data _ _ _ _ (Nat.lt_0_succ k) R)).
+    apply IH. destruct d; [contradiction|]. cbn [length]. lia.
+  - destruct (S k <=? length d)%nat; discriminate.
+Qed.
+
+Theorem read_full_never_out_of_fuel : forall b n, read_full b n <> Err 77%N.
+Proof.
+  intros b n. unfold read_full. destruct (read_full_loop (S n) b n []) as [r|] eqn:L; [discriminate|].
+  exfalso. apply (read_full_loop_fuel (S n) b n []); [lia | exact L].
+Qed.
+
+(* ================= Peek and ReadFull return exactly the next bytes of the stream ================= *)
+Lemma fill_cap b : b_cap (fill b) = b_cap b.
+Proof. unfold fill. destruct (src_read (b_cap b - buffered b) (b_src b)) as [[d s'] e]. reflexivity. Qed.
+
+Lemma peek_loop_exit fuel : forall b n b1, peek_loop fuel b n = Some b1 ->
+  b_cap b1 = b_cap b /\
+  ((buffered b1 <? n)%nat && (buffered b1 <? b_cap b1)%nat && (b_err b1 =? 0)%N) = false.
+Proof.
+  induction fuel as [|f IH]; intros b n b1 H; cbn [peek_loop] in H.
+  - destruct ((buffered b <? n)%nat && (buffered b <? b_cap b)%nat && (b_err b =? 0)%N) eqn:C; [discriminate|].
+    inversion H; subst. split; [reflexivity | exact C].
+  - destruct ((buffered b <? n)%nat && (buffered b <? b_cap b)%nat && (b_err b =? 0)%N) eqn:C.
+    + destruct (IH _ _ _ H) as [Hc He]. rewrite fill_cap in Hc. split; assumption.
+    + inversion H; subst. split; [reflexivity | exact C].
+Qed.
+
+Lemma firstn_app_le {A} n (a r : list A) : (n <= length a)%nat -> firstn n (a ++ r) = firstn n a.
+Proof.
+  intros H. rewrite firstn_app. replace (n - length a)%nat with 0%nat by lia.
+  cbn [firstn]. apply app_nil_r.
+Qed.
+
+Lemma peek_exact b n : wf b -> (n <= b_cap b)%nat -> (n <= length (pending b))%nat ->
+  exists b1, peek b n = Ok (firstn n (pending b), 0%N, b1) /\ pending b1 = pending b /\ wf b1.
+Proof.
+  intros W Hc Hn. unfold peek.
+  destruct (peek_loop (S (b_cap b)) b n) as [b2|] eqn:L;
+    [|exfalso; apply (peek_loop_fuel (S (b_cap b)) b n); [lia | exact L]].
+  destruct (peek_loop_exit _ _ _ _ L) as [Hcap Hex].
+  pose proof (peek_loop_pending _ _ _ _ L) as P. pose proof (peek_loop_wf _ _ _ _ W L) as W2.
+  assert (Hb : (n <= buffered b2)%nat).
+  { destruct (Nat.le_gt_cases n (buffered b2)) as [Hle|Hgt]; [exact Hle|]. exfalso.
+    apply andb_false_iff in Hex. destruct Hex as [Hex|Hex].
+    - apply andb_false_iff in Hex. destruct Hex as [Hex|Hex]; apply Nat.ltb_ge in Hex; lia.
+    - apply N.eqb_neq in Hex. specialize (W2 Hex). unfold pending, buffered in *.
+      rewrite <- P, W2, app_nil_r in Hn. lia. }
+  exists b2. rewrite Hcap.
+  destruct (b_cap b <? n)%nat eqn:E1; [apply Nat.ltb_lt in E1; lia|].
+  destruct (buffered b2 <? n)%nat eqn:E2; [apply Nat.ltb_lt in E2; lia|].
+  split; [|split; assumption]. rewrite <- P. unfold pending. rewrite firstn_app_le by exact Hb. reflexivity.
+Qed.
+
+Lemma read_full_loop_exact fuel : forall b need acc d e b1,
+  wf b -> (need <= length (pending b))%nat ->
+  read_full_loop fuel b need acc = Some (d, e, b1) -> e = 0%N /\ length d = (length acc + need)%nat.
+Proof.
+  induction fuel as [|f IH]; intros b need acc d e b1 W Hn H.
+  - destruct need; cbn [read_full_loop] in H; [inversion H; subst; split; [reflexivity | lia] | discriminate].
+  - destruct need as [|k]; cbn [read_full_loop] in H; [inversion H; subst; split; [reflexivity | lia]|].
+    destruct (bread b (S k)) as [[d0 e0] b0] eqn:R.
+    pose proof (bread_pending _ _ _ _ _ R) as P. pose proof (bread_len _ _ _ _ _ R) as Hl.
+    destruct (bread_step _ _ _ _ _ (Nat.lt_0_succ k) W R) as [[_ [_ Hp]] | [He [W0 _]]].
+    + rewrite Hp in Hn. cbn [length] in Hn. lia.
+    + subst e0. cbn [N.eqb] in H.
+      apply IH in H; [| exact W0 |].
+      * destruct H as [-> Hd]. split; [reflexivity|]. rewrite Hd, app_length. lia.
+      * apply (f_equal (@length N)) in P. rewrite app_length in P. lia.
+Qed.
+
+Lemma read_full_exact b n : wf b -> (n <= length (pending b))%nat ->
+  exists b1, read_full b n = Ok (firstn n (pending b), 0%N, b1) /\
+             firstn n (pending b) ++ pending b1 = pending b /\ wf b1.
+Proof.
+  intros W Hn. unfold read_full.
+  destruct (read_full_loop (S n) b n []) as [[[d e] b1]|] eqn:L;
+    [|exfalso; apply (read_full_loop_fuel (S n) b n []); [lia | exact L]].
+  destruct (read_full_loop_exact _ _ _ _ _ _ _ W Hn L) as [-> Hd].
+  pose proof (read_full_loop_pending _ _ _ _ _ _ _ L) as P. cbn [app length] in P, Hd. rewrite Nat.add_0_l in Hd.
+  pose proof (read_full_loop_wf _ _ _ _ _ _ _ W L) as W1.
+  assert (Hf : firstn n (pending b) = d).
+  { rewrite <- P. rewrite firstn_app_le by lia. rewrite <- Hd. apply firstn_all. }
+  exists b1. rewrite Hf. split; [reflexivity|]. split; assumption.
+Qed.
+
+(* ================= tcp+sni, unconditionally ================= *)
+(* whenever the stream starts with a record the handshake accepts (C10's sni_route_name on the
+   whole stream), however it is segmented, the handshake through the bufio.Reader reads exactly
+   that record and leaves the rest pending *)
+Lemma sni_handshake_steps : forall line segs n name,
+  sni_route_name (concat segs) = Ok (n, name) -> name <> [] ->
+  exists b1 b, peek (new_reader 4096 segs) 9 = Ok (firstn 9 (concat segs), 0%N, b1) /\
+            read_full b1 (N.to_nat n) = Ok (firstn (N.to_nat n) (concat segs), 0%N, b) /\
+            sni_handshake line segs = Ok (Some (line ++ firstn (N.to_nat n) (concat segs), b)) /\ wf b /\
+            firstn (N.to_nat n) (concat segs) ++ pending b = concat segs.
+Proof.
+  intros line segs n name H Hname. set (stream := concat segs) in *.
+  unfold sni_route_name in H.
+  destruct (9 <=? nlen stream)%N eqn:H9; [|discriminate].
+  destruct (client_hello_buffer_size (firstn 9 stream)) as [sz|k|] eqn:Hs; cbn [bind] in H; try discriminate.
+  destruct (sz <=? nlen stream)%N eqn:Hn; [|discriminate].
+  destruct (slice stream 0 (N.to_nat sz)) as [data|k|] eqn:Hsl; cbn [bind] in H; try discriminate.
+  destruct (from data 5) as [msg|k|] eqn:Hfr; cbn [bind] in H; try discriminate.
+  destruct (read_server_name msg) as [nm|k|] eqn:Hr; cbn [bind] in H; try discriminate.
+  inversion H; subst sz nm. clear H.
+  apply slice_ok in Hsl. destruct Hsl as [-> _]. rewrite Nat.sub_0_r in Hfr. cbn [skipn] in Hfr.
+  apply from_ok in Hfr. destruct Hfr as [-> _].
+  apply N.leb_le in H9, Hn. unfold nlen in H9, Hn.
+  assert (W0 : wf (new_reader 4096 segs)) by wf0.
+  assert (P0 : pending (new_reader 4096 segs) = stream) by reflexivity.
+  destruct (peek_exact (new_reader 4096 segs) 9 W0) as [b1 [Hp [P1 W1]]].
+  { cbn [new_reader b_cap]. repeat constructor. }
+  { rewrite P0. lia. }
+  destruct (read_full_exact b1 (N.to_nat n) W1) as [b2 [Hrf [P2 W2]]].
+  { rewrite P1, P0. lia. }
+  rewrite P0 in Hp. rewrite P1, P0 in Hrf, P2.
+  exists b1, b2. split; [exact Hp|]. split; [exact Hrf|].
+  unfold sni_handshake. rewrite Hp. cbn [bind N.eqb negb]. rewrite Hs.
+  rewrite Hrf. cbn [bind N.eqb negb]. rewrite Hr.
+  destruct name as [|c name]; [contradiction|]. split; [reflexivity|]. split; assumption.
+Qed.
+
+Lemma sni_handshake_total : forall line segs n name,
+  sni_route_name (concat segs) = Ok (n, name) -> name <> [] ->
+  exists b, sni_handshake line segs = Ok (Some (line ++ firstn (N.to_nat n) (concat segs), b)) /\ wf b /\
+            firstn (N.to_nat n) (concat segs) ++ pending b = concat segs.
+Proof.
+  intros line segs n name H Hn. destruct (sni_handshake_steps line segs n name H Hn) as [b1 [b [_ [_ R]]]].
+  exists b. exact R.
+Qed.
+
+Theorem sni_upstream_stream_total : forall (pp : bool) (line : str) segs n name,
+  sni_route_name (concat segs) = Ok (n, name) -> name <> [] ->
+  upstream_stream KSni pp line segs = Ok (Some (spec_upstream KSni pp line (concat segs))).
+Proof.
+  intros pp line segs n name H Hname.
+  destruct (sni_handshake_total (if pp then line else []) segs n name H Hname) as [b [Hh [W P]]].
+  unfold upstream_stream. rewrite Hh. cbn [bind]. rewrite (copy_from_reader_preserves _ W). cbn [bind].
+  cbn [spec_upstream]. rewrite <- app_assoc, P. reflexivity.
+Qed.
+
+(* the model never reports fuel exhaustion: Err 77 is unreachable *)
+Theorem upstream_stream_never_out_of_fuel : forall k pp line segs, upstream_stream k pp line segs <> Err 77%N.
+Proof.
+  intros k pp line segs. unfold upstream_stream.
+  assert (Hc : forall st : setup, bind (copy_buffer (s_src st)) (fun c => Ok (Some (s_pre st ++ c))) <> Err 77%N).
+  { intros st. rewrite copy_preserves_stream. discriminate. }
+  destruct k; try apply Hc.
+  unfold sni_handshake.
+  assert (W0 : wf (new_reader 4096 segs)) by wf0.
+  destruct (peek (new_reader 4096 segs) 9) as [[[hdr e1] b1]|k1|] eqn:P; cbn [bind]; try discriminate.
+  2:{ intros E. inversion E; subst. apply (peek_never_out_of_fuel _ _ P). }
+  pose proof (peek_wf _ _ _ _ _ W0 P) as W1.
+  destruct (negb (e1 =? 0)%N); [discriminate|].
+  destruct (client_hello_buffer_size hdr) as [size|k2|]; try discriminate.
+  destruct (read_full b1 (N.to_nat size)) as [[[data e2] b2]|k3|] eqn:R; cbn [bind]; try discriminate.
+  2:{ intros E. inversion E; subst. apply (read_full_never_out_of_fuel _ _ R). }
+  pose proof (read_full_wf _ _ _ _ _ W1 R) as W2.
+  destruct (negb (e2 =? 0)%N); [discriminate|].
+  destruct (read_server_name (skipn 5 data)) as [[|c name]|k4|]; cbn [bind]; try discriminate.
+  rewrite (copy_from_reader_preserves _ W2). discriminate.
+Qed.
+
+(* ================= the scenario analysis meets the specification ================= *)
+Lemma is_prefix_len o s : is_prefix o s = true -> (length o <= length s)%nat.
+Proof.
+  revert s; induction o as [|x o IH]; intros s H; [cbn [length]; lia|].
+  destruct s as [|y s]; cbn [is_prefix] in H; [discriminate|].
+  apply andb_true_iff in H. destruct H as [_ H]. specialize (IH _ H). cbn [length]. lia.
+Qed.
+
+Lemma is_prefix_full o s : is_prefix o s = true -> (length s <= length o)%nat -> o = s.
+Proof.
+  revert s; induction o as [|x o IH]; intros s H L.
+  - destruct s; [reflexivity | cbn [length] in L; lia].
+  - destruct s as [|y s]; cbn [is_prefix] in H; [discriminate|].
+    apply andb_true_iff in H. destruct H as [E H]. apply N.eqb_eq in E. subst y.
+    cbn [length] in L. f_equal. apply IH; [exact H | lia].
+Qed.
+
+Ltac ncases :=
+  repeat match goal with
+  | |- context [N.min ?a ?b] => destruct (N.min_spec a b) as [[? ->]|[? ->]]
+  | H : context [N.min ?a ?b] |- _ => destruct (N.min_spec a b) as [[? ->]|[? ->]]
+  | |- context [(?a <=? ?b)%N] => destruct (N.leb_spec a b)
+  | H : context [(?a <=? ?b)%N] |- _ => destruct (N.leb_spec a b)
+  | |- context [(?a =? ?b)%N] => destruct (N.eqb_spec a b)
+  | H : context [(?a =? ?b)%N] |- _ => destruct (N.eqb_spec a b)
+  end.
+
+(* whenever the specification demands the client's whole stream, the forced outcome has it *)
+Lemma expect_up_complete : forall up reply cwait ce ut ue,
+  region_half_close cwait ce = false -> race_close_unread_reply up cwait ce ut = false ->
+  spec_req_up (nlen' up) ut ue = true ->
+  e_up_lo (tunnel_expect up reply cwait ce ut ue) = nlen' up.
+Proof.
+  intros up reply cwait ce ut ue. unfold tunnel_expect, spec_req_up, spec_safe, spec_early, region_half_close, race_close_unread_reply.
+  generalize (nlen' up) as U. generalize (nlen' reply) as R. intros R U.
+  destruct ue, ce, cwait, ut; cbn [negb andb orb]; intros H1 H2 H3; ncases;
+    cbn [negb andb orb e_up_lo] in *; try discriminate; try reflexivity; try lia.
+Qed.
+
+(* ... and likewise the whole reply *)
+Lemma expect_cl_complete : forall up reply cwait ce ut ue,
+  region_half_close cwait ce = false -> race_close_unread_reply up cwait ce ut = false ->
+  spec_req_cl (nlen' up) cwait ce ut ue = true ->
+  e_cl_lo (tunnel_expect up reply cwait ce ut ue) = nlen' reply.
+Proof.
+  intros up reply cwait ce ut ue. unfold tunnel_expect, spec_req_cl, spec_safe, spec_early, region_half_close, race_close_unread_reply.
+  generalize (nlen' up) as U. generalize (nlen' reply) as R. intros R U.
+  destruct ue, ce, cwait, ut; cbn [negb andb orb]; intros H1 H2 H3; ncases;
+    cbn [negb andb orb e_cl_lo] in *; try discriminate; try reflexivity; try lia.
+Qed.
+
+Lemma tunnel_expect_streams up reply cwait ce ut ue :
+  let e := tunnel_expect up reply cwait ce ut ue in e_conn e = true /\ e_up e = up /\ e_cl e = reply.
+Proof.
+  unfold tunnel_expect.
+  destruct (match ue with UClose => _ | UStay => false end); [repeat split|].
+  destruct ce; [| destruct cwait | destruct cwait];
+    destruct (match ut with UAtConnect => true | UAfterBytes n => (n <=? nlen' up)%N | UOnEOF => false end);
+    repeat split.
+Qed.
+
+(* interval semantics: any observation within the forced outcome's bounds satisfies the
+   specification, outside the half-close region and the close-with-unread-reply race *)
+Theorem tunnel_expect_meets_spec : forall up reply cwait ce ut ue o_up o_cl,
+  let e := tunnel_expect up reply cwait ce ut ue in
+  region_half_close cwait ce = false -> race_close_unread_reply up cwait ce ut = false ->
+  within o_up (e_up e) (e_up_lo e) (nlen' (e_up e)) = true ->
+  is_prefix o_cl (e_cl e) = true -> (e_cl_lo e <= nlen' o_cl)%N ->
+  spec_core up reply cwait ce ut ue o_up o_cl = true.
+Proof.
+  intros up reply cwait ce ut ue o_up o_cl e Hr Hrace Hup Hcl Hlo.
+  destruct (tunnel_expect_streams up reply cwait ce ut ue) as [_ [Eu Ec]]. fold e in Eu, Ec.
+  rewrite Eu in Hup. rewrite Ec in Hcl. unfold within in Hup.
+  apply andb_true_iff in Hup. destruct Hup as [Hup _]. apply andb_true_iff in Hup. destruct Hup as [Hpu Hlu].
+  apply N.leb_le in Hlu.
+  unfold spec_core. rewrite Hpu, Hcl. cbn [andb].
+  apply andb_true_iff. split.
+  - destruct (spec_req_up (nlen' up) ut ue) eqn:Q; [|reflexivity].
+    apply beq_eq. apply is_prefix_full; [exact Hpu|].
+    pose proof (expect_up_complete up reply cwait ce ut ue Hr Hrace Q) as L. fold e in L.
+    unfold nlen' in *. lia.
+  - destruct (spec_req_cl (nlen' up) cwait ce ut ue) eqn:Q; [|reflexivity].
+    apply beq_eq. apply is_prefix_full; [exact Hcl|].
+    pose proof (expect_cl_complete up reply cwait ce ut ue Hr Hrace Q) as L. fold e in L.
+    unfold nlen' in *. lia.
+Qed.
+
+Lemma has_prefix_firstn s p n : has_prefix s p = true -> (length p <= n)%nat -> has_prefix (firstn n s) p = true.
+Proof.
+  intros H L. apply has_prefix_spec in H. destruct H as [r ->]. apply has_prefix_spec.
+  apply firstn_app_exact. exact L.
+Qed.
+
+(* on the websocket path the upstream's first output carries the status line: either everything
+   leaves at once or the head the harness sends first has at least the 12 tested bytes *)
+Definition ws_head_first (k : kind) (ut : utrig) (whead : N) : bool :=
+  match k with
+  | KWs => match ut with UAtConnect => true | _ => (12 <=? whead)%N end
+  | _ => true
+  end.
+
+Lemma within_parts obs full lo hi : within obs full lo hi = true ->
+  is_prefix obs full = true /\ (lo <= nlen' obs)%N.
+Proof.
+  unfold within. intros H. apply andb_true_iff in H. destruct H as [H _].
+  apply andb_true_iff in H. destruct H as [H1 H2]. apply N.leb_le in H2. split; assumption.
+Qed.
+
+(* THE LINK: for all scenarios (proxy kind, PROXY option, segmentation, close order, trigger),
+   outside the open finding regions (F-C09-2 half-close, F-C09-3 split 101, F-C09-4
+   dynamic+pxyproto) and the close-with-unread-reply race, every observation within the model's
+   forced outcome satisfies spec_b: the tripwire verdict 4 cannot arise from the model side *)
+Theorem scenario_meets_spec : forall k pp line segs cwait ce ut reply rseg1 whead ue e o_up o_cl,
+  scenario_expect k pp line segs cwait ce ut reply rseg1 whead ue = Ok e ->
+  region_dyn_proxyproto k pp = false -> region_ws_split k reply rseg1 = false ->
+  region_half_close cwait ce = false ->
+  race_close_unread_reply (spec_upstream k pp line (concat segs)) cwait ce ut = false ->
+  ws_head_first k ut whead = true ->
+  within o_up (e_up e) (e_up_lo e) (nlen' (e_up e)) = true ->
+  within o_cl (e_cl e) (e_cl_lo e) (e_cl_hi e) = true ->
+  spec_b k pp line (concat segs) cwait ce ut reply ue o_up o_cl = true.
+Proof.
+  intros k pp line segs cwait ce ut reply rseg1 whead ue e o_up o_cl He Rd Rw Rh Rr Hw Hup Hcl.
+  destruct (within_parts _ _ _ _ Hcl) as [Hclp Hcll].
+  unfold spec_b.
+  destruct k.
+  - (* tcp *)
+    cbn [tunnelled negb]. unfold scenario_expect in He. rewrite tcp_upstream_stream in He. cbn [bind] in He.
+    inversion He; subst e. cbn [spec_upstream] in *. apply tunnel_expect_meets_spec; assumption.
+  - (* tcp+sni *)
+    unfold tunnelled. destruct (sni_route_name (concat segs)) as [[n [|c name]]|kk|] eqn:S; cbn [negb]; try reflexivity.
+    unfold scenario_expect in He.
+    rewrite (sni_upstream_stream_total pp line segs n (c :: name) S) in He by discriminate. cbn [bind] in He.
+    inversion He; subst e. apply tunnel_expect_meets_spec; assumption.
+  - (* tcp-dynamic, pxyproto off *)
+    cbn [tunnelled negb]. cbn [region_dyn_proxyproto] in Rd. subst pp.
+    unfold scenario_expect in He. rewrite dynamic_upstream_stream in He. cbn [bind] in He.
+    inversion He; subst e. cbn [spec_upstream app] in *. apply tunnel_expect_meets_spec; assumption.
+  - (* websocket *)
+    unfold tunnelled. destruct (has_prefix reply ws_101) eqn:P; cbn [negb]; [|reflexivity].
+    unfold scenario_expect in He.
+    set (out0 := match ut with UAtConnect => reply | _ => firstn (N.to_nat whead) reply end) in He.
+    assert (P0 : has_prefix out0 ws_101 = true).
+    { subst out0. cbn [ws_head_first] in Hw.
+      destruct ut; [exact P | | ]; apply has_prefix_firstn; try exact P;
+        apply N.leb_le in Hw; change (length ws_101) with 12%nat; lia. }
+    set (seg1 := if ((0 <? rseg1)%N && (rseg1 <? nlen' out0)%N)%bool then firstn (N.to_nat rseg1) out0 else out0) in He.
+    assert (P1 : ws_upgraded seg1 = true).
+    { apply ws_upgrade_on_domain. subst seg1.
+      destruct ((0 <? rseg1)%N && (rseg1 <? nlen' out0)%N)%bool eqn:C; [|exact P0].
+      apply has_prefix_firstn; [exact P0|].
+      cbn [region_ws_split] in Rw. rewrite P in Rw. cbn [andb] in Rw.
+      apply andb_true_iff in C. destruct C as [C _]. rewrite C in Rw. cbn [andb] in Rw.
+      apply N.ltb_ge in Rw. change (length ws_101) with 12%nat. lia. }
+    rewrite P1 in He. rewrite copy_preserves_stream in He. cbn [bind] in He.
+    inversion He; subst e. clear He. cbn [e_up e_up_lo e_cl e_cl_lo e_cl_hi] in *.
+    cbn [spec_upstream] in *. apply tunnel_expect_meets_spec; try assumption. lia.
+Qed.
+
+Example scenario_meets_spec_nonvacuous :
+  exists e, scenario_expect KSni true [80; 32]%N [wit_hello ++ [1; 2]%N; [3]%N] true CHalf (UAfterBytes 4) [7; 8]%N 0 0 UStay = Ok e /\
+    within ([80; 32]%N ++ wit_hello ++ [1; 2; 3]%N) (e_up e) (e_up_lo e) (nlen' (e_up e)) = true /\
+    within [7; 8]%N (e_cl e) (e_cl_lo e) (e_cl_hi e) = true /\
+    region_half_close true CHalf = false /\
+    race_close_unread_reply (spec_upstream KSni true [80; 32]%N (wit_hello ++ [1; 2; 3]%N)) true CHalf (UAfterBytes 4) = false.
+Proof. eexists. repeat split; vm_compute; reflexivity. Qed.
+
+(* ================= a segment boundary at the ClientHello's end: nothing is buffered beyond it ================= *)
+(* [bnd b s2 k]: the connection still holds some segments [s1] and then [s2]; exactly [k] bytes
+   (buffered ones and those of [s1]) lie before the boundary *)
+Definition bnd (b : breader) (s2 : list str) (k : nat) : Prop :=
+  exists s1, b_src b = s1 ++ s2 /\ (length (b_buf b) + length (concat s1) = k)%nat.
+
+(* a Read never crosses a segment boundary *)
+Lemma src_read_within m : forall s1 s2 d s' e,
+  (0 < length (concat s1))%nat -> src_read m (s1 ++ s2) = (d, s', e) ->
+  e = false /\ exists s1', s' = s1' ++ s2 /\ d ++ concat s1' = concat s1.
+Proof.
+  induction s1 as [|seg rest IH]; intros s2 d s' e Hpos H; [cbn [concat length] in Hpos; lia|].
+  destruct seg as [|x seg]; cbn [app src_read] in H.
+  - apply IH in H; [exact H | exact Hpos].
+  - inversion H; subst. split; [reflexivity|]. exists (skipn m (x :: seg) :: rest). split; [reflexivity|].
+    cbn [concat]. rewrite app_assoc, firstn_skipn. reflexivity.
+Qed.
+
+Lemma fill_bnd b s2 k : bnd b s2 k -> (buffered b < k)%nat -> bnd (fill b) s2 k.
+Proof.
+  intros [s1 [Hs Hk]] Hlt. unfold fill, buffered in *.
+  destruct (src_read (b_cap b - length (b_buf b)) (b_src b)) as [[d s'] e] eqn:E. rewrite Hs in E.
+  apply src_read_within in E; [|lia]. destruct E as [_ [s1' [-> Hc]]].
+  exists s1'. cbn [b_buf b_src]. split; [reflexivity|].
+  apply (f_equal (@length N)) in Hc. rewrite app_length in *. lia.
+Qed.
+
+Lemma peek_loop_bnd fuel : forall b n s2 k b1, bnd b s2 k -> (n <= k)%nat ->
+  peek_loop fuel b n = Some b1 -> bnd b1 s2 k.
+Proof.
+  induction fuel as [|f IH]; intros b n s2 k b1 B Hn H; cbn [peek_loop] in H.
+  - destruct ((buffered b <? n)%nat && (buffered b <? b_cap b)%nat && (b_err b =? 0)%N); [discriminate|].
+    inversion H; subst; exact B.
+  - destruct ((buffered b <? n)%nat && (buffered b <? b_cap b)%nat && (b_err b =? 0)%N) eqn:C.
+    + apply andb_true_iff in C. destruct C as [C _]. apply andb_true_iff in C. destruct C as [C _].
+      apply Nat.ltb_lt in C. eapply IH; [apply fill_bnd; [exact B | lia] | exact Hn | exact H].
+    + inversion H; subst; exact B.
+Qed.
+
+Lemma peek_bnd b n s2 k d e b1 : bnd b s2 k -> (n <= k)%nat -> peek b n = Ok (d, e, b1) -> bnd b1 s2 k.
+Proof.
+  intros B Hn. unfold peek. destruct (peek_loop (S (b_cap b)) b n) as [b2|] eqn:L; [|discriminate].
+  pose proof (peek_loop_bnd _ _ _ _ _ _ B Hn L) as B2.
+  destruct (b_cap b2 <? n)%nat; [intros H; inversion H; subst; exact B2|].
+  destruct (buffered b2 <? n)%nat; intros H; inversion H; subst; exact B2.
+Qed.
+
+Lemma bread_bnd b m s2 k d e b1 : bnd b s2 k -> (0 < k)%nat ->
+  bread b m = (d, e, b1) -> bnd b1 s2 (k - length d).
+Proof.
+  intros [s1 [Hs Hk]] Hpos. unfold bread. destruct m as [|n'].
+  - destruct (0 <? buffered b)%nat; intros H; inversion H; subst; cbn [length clear_err b_buf b_src];
+      rewrite Nat.sub_0_r; exists s1; (split; [exact Hs | first [exact Hk | reflexivity | lia]]).
+  - destruct (b_buf b) as [|x buf] eqn:B.
+    + cbn [length] in Hk.
+      destruct (negb (b_err b =? 0)%N).
+      { intros H; inversion H; subst. cbn [length]. rewrite Nat.sub_0_r. exists s1.
+        cbn [clear_err b_buf b_src]. rewrite B. split; [exact Hs | cbn [length]; lia]. }
+      destruct (b_cap b <=? S n')%nat.
+      * destruct (src_read (S n') (b_src b)) as [[d0 s'] e0] eqn:E. rewrite Hs in E.
+        apply src_read_within in E; [|lia]. destruct E as [_ [s1' [-> Hc]]].
+        intros H; inversion H; subst. exists s1'. cbn [b_buf b_src length]. split; [reflexivity|].
+        apply (f_equal (@length N)) in Hc. rewrite app_length in Hc. lia.
+      * destruct (src_read (b_cap b) (b_src b)) as [[d0 s'] e0] eqn:E. rewrite Hs in E.
+        apply src_read_within in E; [|lia]. destruct E as [_ [s1' [-> Hc]]].
+        apply (f_equal (@length N)) in Hc. rewrite app_length in Hc.
+        destruct d0 as [|y d0]; intros H; inversion H; subst.
+        -- exists s1'. cbn [b_buf b_src length] in *. split; [reflexivity | lia].
+        -- exists s1'. cbn [b_buf b_src]. split; [reflexivity|].
+           change (y :: firstn n' d0) with (firstn (S n') (y :: d0)).
+           rewrite skipn_length, firstn_length. cbn [length] in *. lia.
+    + intros H; inversion H; subst. exists s1. cbn [set_buf b_buf b_src]. split; [exact Hs|].
+      change (x :: firstn n' buf) with (firstn (S n') (x :: buf)).
+      rewrite skipn_length, firstn_length. rewrite B in Hk. cbn [length] in *. lia.
+Qed.
+
+(* reading exactly up to the boundary leaves the buffer empty *)
+Lemma read_full_loop_bnd fuel : forall b need acc s2 d b1,
+  bnd b s2 need -> read_full_loop fuel b need acc = Some (d, 0%N, b1) -> bnd b1 s2 0.
+Proof.
+  induction fuel as [|f IH]; intros b need acc s2 d b1 B H.
+  - destruct need; cbn [read_full_loop] in H; [inversion H; subst; exact B | discriminate].
+  - destruct need as [|k]; cbn [read_full_loop] in H; [inversion H; subst; exact B|].
+    destruct (bread b (S k)) as [[d0 e0] b0] eqn:R.
+    pose proof (bread_bnd _ _ _ _ _ _ _ B (Nat.lt_0_succ k) R) as B0.
+    destruct (e0 =? 0)%N eqn:E0; [eapply IH; eassumption|].
+    destruct (S k <=? length d0)%nat eqn:L.
+    + apply Nat.leb_le in L. inversion H; subst. replace 0%nat with (S k - length d0)%nat by lia. exact B0.
+    + exfalso. apply N.eqb_neq in E0.
+      destruct ((0 <? length (acc ++ d0))%nat && (e0 =? 1)%N)%bool; inversion H; congruence.
+Qed.
+
+Theorem sni_boundary_nothing_buffered : forall line s1 s2 n name,
+  sni_route_name (concat (s1 ++ s2)) = Ok (n, name) -> name <> [] ->
+  length (concat s1) = N.to_nat n ->
+  sni_leftover_unrepaired line (s1 ++ s2) = [].
+Proof.
+  intros line s1 s2 n name H Hname Hb.
+  destruct (sni_handshake_steps line (s1 ++ s2) n name H Hname) as [b1 [b [Hp [Hrf [Hh _]]]]].
+  destruct (sni_route_bound _ _ _ H) as [rl [_ [H10 _]]].
+  assert (B0 : bnd (new_reader 4096 (s1 ++ s2)) s2 (N.to_nat n)).
+  { exists s1. cbn [new_reader b_src b_buf length]. split; [reflexivity | lia]. }
+  assert (B1 : bnd b1 s2 (N.to_nat n)) by (eapply peek_bnd; [exact B0 | lia | exact Hp]).
+  unfold read_full in Hrf.
+  destruct (read_full_loop (S (N.to_nat n)) b1 (N.to_nat n) []) as [[[d e] b2]|] eqn:L; [|discriminate].
+  inversion Hrf; subst d e b2.
+  destruct (read_full_loop_bnd _ _ _ _ _ _ _ B1 L) as [s1' [_ Hz]].
+  unfold sni_leftover_unrepaired. rewrite Hh.
+  destruct (b_buf b); [reflexivity | cbn [length] in Hz; lia].
+Qed.
+
+(* hence the unrepaired copier was right exactly there: with a segment boundary at the end of
+   the ClientHello record the upstream received the whole stream even before c17abb6 *)
+Corollary sni_unrepaired_right_on_boundary : forall (pp : bool) (line : str) s1 s2 n name,
+  sni_route_name (concat (s1 ++ s2)) = Ok (n, name) -> name <> [] ->
+  length (concat s1) = N.to_nat n ->
+  upstream_stream_sni_unrepaired pp line (s1 ++ s2) = Ok (Some (spec_upstream KSni pp line (concat (s1 ++ s2)))).
+Proof.
+  intros pp line s1 s2 n name H Hname Hb.
+  pose proof (sni_boundary_nothing_buffered (if pp then line else []) s1 s2 n name H Hname Hb) as Hl.
+  destruct (sni_handshake_total (if pp then line else []) (s1 ++ s2) n name H Hname) as [b [Hh [W P]]].
+  unfold sni_leftover_unrepaired in Hl. rewrite Hh in Hl.
+  unfold upstream_stream_sni_unrepaired. rewrite Hh. cbn [bind]. rewrite copy_preserves_stream. cbn [bind].
+  unfold pending in P. rewrite Hl in P. cbn [app] in P. cbn [spec_upstream]. rewrite <- app_assoc, P. reflexivity.
+Qed.
+
+Example sni_boundary_nonvacuous :
+  sni_route_name (concat ([firstn 20 wit_hello; skipn 20 wit_hello] ++ [[1; 2; 3]%N])) = Ok (nlen wit_hello, bs "foo.com"%string) /\
+  length (concat [firstn 20 wit_hello; skipn 20 wit_hello]) = N.to_nat (nlen wit_hello).
+Proof. split; vm_compute; reflexivity. Qed.
